@@ -1,7 +1,7 @@
 import Bgpfu.Model.Run
 import Bgpfu.Drive.Proto
 /-! `run` op family (C04).
-`run model <n> <fault>`  fault = `none` | `<pos>:<rpcerr|malformed|wrongid|closebefore|closeafter>`
+`run model <n> <fault>`  fault = `none` | `<pos>:<rpcerr|errwarnok|errcount|malformed|wrongid|closebefore|closeafter>`
    → `result=<ok|err> commit=<0|1> closedb=<0|1> closesess=<0|1> names=<comma list | *>`
    (`names=*` for connection-closing faults: how many already-pipelined requests the server still
    reads before it closes is a race the model does not decide)
@@ -14,7 +14,8 @@ def parseFault (s : String) : Option (Option (Nat × Fault)) :=
   match s.splitOn ":" with
   | [p, k] => do
     let p ← p.toNat?
-    let k ← if k == "rpcerr" then some Fault.rpcError else if k == "malformed" then some .malformed
+    let k ← if k == "rpcerr" then some Fault.rpcError else if k == "errwarnok" then some .errWarnOk
+      else if k == "errcount" then some .errCount else if k == "malformed" then some .malformed
       else if k == "wrongid" then some .wrongId else if k == "closebefore" then some .closeBefore
       else if k == "closeafter" then some .closeAfter else none
     pure (some (p, k))
